@@ -5,6 +5,7 @@ CONSTANTS
   MaxM = 2
   MaxTotal = 4
   ZeroPairs = "split"
+  WithTwins = FALSE
   ExportAt = "matrix"
 CONSTRAINT Export
 INVARIANT ImplCover
